@@ -19,7 +19,7 @@ CFG = dict(
           "response (needs a hypothesis on unary handler programs: a reply or an error). "
           "The client model is tied lock-step to the real client on every run (all orders of internal rules) and the "
           "automata judge every per-id per-direction projection of every wire history of the rigs (real client, real server, end to end).",
-    props="Props/C06.v", theorems=["C06_client", "C06_client_refuted", "C06_server_origin", "C06_server_stream", "C06_reset_order", "C06_sys", "C06_trailer_present", "C06_server_unary", "C06_server_reset_only_answers_unknown_body"],
+    props="Props/C06.v", theorems=["C06_client", "C06_client_refuted", "C06_server_origin", "C06_server_stream", "C06_reset_order", "C06_sys", "C06_trailer_present", "C06_server_unary", "C06_server_reset_only_answers_unknown_body", "C06_server_unary_exactly_one", "C06_server_unary_resp_shape"],
     imports=["Model.Client", "Check.ClientC", "Model.Protocol", "Check.CwC", "Check.C06c"],
     case_type="cwcase", find_bad_from="find_bad_from", go_tags="cw",
     rigs=[dict(test="TestC06", timeout_quick=600, timeout_thorough=2400)],
